@@ -386,6 +386,23 @@ reg("C07",
     level_text="csv_fields_roundtrip (Go's CSV reader recovers every field sequence without CR LF from the writer's output, all field contents, unbounded), rfc_csv_roundtrip (all fields), csv_crlf_refuted, b64_roundtrip, dec_roundtrip and csv_columns_documented are proved in Coq; the CSV and JSON layouts of the model are written from the documentation and act as the independent readers; tie by differential runs of the three real codecs.",
     technique="Coq round-trip proofs of the codec components; independent-reader differential correspondence",
     timeout={"quick": 900, "thorough": 3000})
+reg("C11",
+    rule="latency data sets of 1..12, ~800 (the digest's first re-merge), 1..3000, 5000..20000 and 30000 (thorough: 100000) samples drawn from uniform, log-normal, constant, few-valued, "
+         "bimodal with a 10^12 gap, ramp and heavy-tailed distributions, arriving in random, sorted or reverse-sorted order, added to a real Metrics and closed; the processed state of the real digest "
+         "(centroid means and weights, min, max) is read by reflection and the HDR report rendered by the real reporter; all cases non-trivial",
+    clauses={1: "min <= p50 <= p90 <= p95 <= p99 <= max does not hold", 2: "a reported percentile does not lie between two observed latencies whose ranks are within 1 + 1% of n of q*n",
+             3: "all latencies are equal but a percentile differs from that value", 4: "the HDR report lists a value that decreases as the percentile grows",
+             5: "the HDR report's percentile column is empty or decreases",
+             6: "a reported percentile is off by more than 2 + 2.5% of n ranks (beyond the resolution a compression-100 digest has by construction)"},
+    diffs={10: "P50/P90/P95/P99 differ from the exact-Q model query on the exported digest state (beyond truncation and the 2^-40 band)",
+           11: "an HDR row differs from the model query on the exported digest state", 12: "the digest's min/max lie outside the tracked Min/Max"},
+    assumptions=["float rounding inside the digest is not modelled: a state whose exported means violate the invariant by rounding is declared don't-care for the model comparison (the property clauses are still decided on the reported values)",
+                 "the implementation value must lie between the model query at q(1-2^-40) and q(1+2^-40) (the query is monotone: quantile_mono), +-1 ns for the truncation"],
+    level_text="quantile_mono, quantile_in_range, quantile_constant, quantile_total, percentiles_ordered, hdr_monotone (every non-decreasing ladder) are proved in Coq over exact rationals for EVERY digest state "
+               "satisfying the invariant, and process_inv proves the invariant is maintained by process() under every merge policy (the sin/asin scale function never enters). PARTIAL: the 1 + 1%*n rank bound for the real merge policy is not proved; "
+               "it is evaluated by the verified checker with exact integer rank arithmetic on every explored data set. Tie: the exported state of the real digest is queried by the model and compared with Metrics.Latencies and the HDR rows.",
+    technique="Coq proof (monotone, in-range query over Q; invariant under any merge policy); verified rank checker; differential correspondence on the exported digest state",
+    timeout={"quick": 900, "thorough": 3000})
 reg("C08", needs_cli=True,
     rule="streams of 1..10 " + _CODEC_GEN + " (bodies of 4096/5000/70000 bytes in one record of six, a first record without headers/body/error in one stream of three) in each encoding, "
          "read through a reader that returns 1, 2, 7, 512, 4095, 4096, 4097 or 65536 bytes per call (fixed or varying) and handed to DecoderFor; every 9th case is input in none "
